@@ -147,10 +147,13 @@ pub fn c14_native_components() {
                                                               ("CompleteOneTailedNormalCorrection", CompleteOneTailedNormalCorrection::new())];
         for (name, op) in &ops {
             // the resampling operator draws from a normal distribution: rare large draws matter, so it gets many more seeds
-            for seed in 0..(if *name == "CompleteOneTailedNormalCorrection" { 160u64 } else { 8 }) {
+            // seeds >= 1000: the same grid on individuals that already CARRY an objective value (repair must not depend on the
+            // evaluation status: "every coordinate of every individual ends up inside the domain")
+            for seed in (0..(if *name == "CompleteOneTailedNormalCorrection" { 160u64 } else { 8 })).chain(1000..1008) {
+                let evaluated = seed >= 1000;
                 let mut state = fresh::<Boxed>(seed);
                 state.populations_mut().push(vec![Individual::new_unevaluated(vec![77.0; d.len()])]);
-                state.populations_mut().push(pop.iter().cloned().map(Individual::new_unevaluated).collect());
+                state.populations_mut().push(pop.iter().cloned().map(|x| if evaluated { Individual::new(x, crate::SingleObjective::try_from(1.5).unwrap()) } else { Individual::new_unevaluated(x) }).collect());
                 op.execute(&p, &mut state).expect("boundary repair must not fail");
                 let once: Vec<Vec<f64>> = state.populations().current().iter().map(|i| i.solution().clone()).collect();
                 op.execute(&p, &mut state).expect("boundary repair must not fail");
